@@ -489,6 +489,28 @@ func (wk *worker) runPath(prefix []decision) (ps *pathState) {
 	ps = &pathState{wk: wk, prefix: prefix, retryAt: -1, nondetCount: map[string]int{},
 		reach: map[string]int{}, funcs: map[*ssa.Function]int{}, stubs: map[string]int{}}
 	i := newInterpreter(wk, ps)
+	if os.Getenv("GOSYMX_WATCHDOG") != "" {
+		stop := make(chan bool)
+		defer close(stop)
+		go func() {
+			last := -1
+			for {
+				select {
+				case <-stop:
+					return
+				case <-time.After(20 * time.Second):
+				}
+				if i.steps == last {
+					msg := fmt.Sprintf("WATCHDOG: no progress; cur=%d fatal=%v aborted=%v stuck=%d:", i.sched.cur.id, i.sched.fatal != nil, i.sched.aborted, i.sched.stuck)
+					for _, g := range i.sched.gors {
+						msg += fmt.Sprintf(" [g%d done=%v %s]", g.id, g.done, g.state)
+					}
+					fmt.Fprintln(os.Stderr, msg)
+				}
+				last = i.steps
+			}
+		}()
+	}
 	defer i.killGoroutines()
 	defer func() {
 		p := recover()
